@@ -111,40 +111,6 @@ theorem inverse_setBoth (s : State N A) (hi : Inverse s) (n : N) (a : A) (h1 : s
   have := hi n' a
   grind
 
-theorem inverse_add (s : State N A) (hi : Inverse s) (n : N) (a : A) : Inverse (add s n a).1 := by
-  unfold add
-  split
-  · exact hi
-  · split
-    · split <;> exact hi
-    · split
-      · split <;> exact hi
-      · rename_i h1 _ h2; exact inverse_setBoth s hi n a h1 h2
-
-theorem inverse_rem (s : State N A) (hi : Inverse s) (n : N) (a : A) : Inverse (rem s n a).1 := by
-  unfold rem
-  split
-  · split
-    · exact hi
-    · rename_i a' h
-      simp only
-      generalize (if (!truthy a) = true then a' else a) = b
-      split
-      · exact hi
-      · rename_i hne
-        have hb : b = a' := by simpa using hne
-        subst hb
-        rw [delBoth_spec s hi n b h]
-        exact inverse_dropBoth s hi n b h
-  · split
-    · split
-      · exact hi
-      · rename_i n' h
-        have h' := (hi n' a).mpr h
-        rw [delBoth_spec s hi n' a h']
-        exact inverse_dropBoth s hi n' a h'
-    · exact hi
-
 omit [Truthy N] [Truthy A] in
 theorem inverse_chg (s : State N A) (hi : Inverse s) (n : N) (a old : A) (h1 : s.n2a.get n = some old)
     (h2 : s.a2n.get a = none) :
@@ -172,59 +138,62 @@ theorem inverse_chg' (s : State N A) (hi : Inverse s) (n old : N) (a : A) (h1 : 
   grind
 
 theorem chgAddr_ok (s : State N A) (hi : Inverse s) (n : N) (a old : A) (h1 : s.n2a.get n = some old)
-    (h2 : s.a2n.get a = none) (hn : truthy n = true) (ha : truthy a = true) (hne : a ≠ old) :
+    (h2 : s.a2n.get a = none) (hn : truthy n = true) (ha : truthy a = true) (hne : a ≠ old)
+    (hhn : hashable n = true) (hha : hashable a = true) :
     chgAddr s n a = (⟨s.n2a.set n a, Map.set (Map.drop s.a2n old) a n⟩, .ok (.bool true)) := by
   have h3 : s.a2n.get old = some n := (hi n old).mp h1
-  simp [chgAddr, hn, ha, h1, h2, hne, Map.del_of_get h3]
+  simp [chgAddr, hn, ha, hhn, hha, h1, h2, hne, Map.del_of_get h3]
 
 theorem chgName_ok (s : State N A) (hi : Inverse s) (n old : N) (a : A) (h1 : s.a2n.get a = some old)
-    (h2 : s.n2a.get n = none) (hn : truthy n = true) (ha : truthy a = true) (hne : n ≠ old) :
+    (h2 : s.n2a.get n = none) (hn : truthy n = true) (ha : truthy a = true) (hne : n ≠ old)
+    (hhn : hashable n = true) (hha : hashable a = true) :
     chgName s a n = (⟨Map.set (Map.drop s.n2a old) n a, s.a2n.set a n⟩, .ok (.bool true)) := by
   have h3 : s.n2a.get old = some a := (hi old a).mpr h1
-  simp [chgName, hn, ha, h1, h2, hne, Map.del_of_get h3]
+  simp [chgName, hn, ha, hhn, hha, h1, h2, hne, Map.del_of_get h3]
 
 /-- what every operation guarantees when started in a state whose mappings are inverse:
-the result state is inverse again, no `KeyError` escapes, and a rejected (`NamerError`) or
-"no change" (`False`) outcome leaves the state literally unchanged -/
+the result state is inverse again, no `KeyError` escapes, and a rejected (`NamerError`, or `TypeError` for an
+unhashable argument) or "no change" (`False`) outcome leaves the state literally unchanged -/
 def Good (s : State N A) (r : State N A × Except Exn (Out N A)) : Prop :=
-  Inverse r.1 ∧ r.2 ≠ .error .keyError ∧ ((r.2 = .error .namerError ∨ r.2 = .ok (.bool false)) → r.1 = s)
+  Inverse r.1 ∧ r.2 ≠ .error .keyError ∧
+    ((r.2 = .error .namerError ∨ r.2 = .error .typeError ∨ r.2 = .ok (.bool false)) → r.1 = s)
 
 theorem good_same (s : State N A) (hi : Inverse s) (o : Except Exn (Out N A)) (h : o ≠ .error .keyError) :
     Good s (s, o) := ⟨hi, h, fun _ => rfl⟩
 
 theorem good_add (s : State N A) (hi : Inverse s) (n : N) (a : A) : Good s (add s n a) := by
   unfold add
-  split
-  · exact good_same s hi _ (by simp)
-  · split
-    · split <;> exact good_same s hi _ (by simp)
-    · split
-      · split <;> exact good_same s hi _ (by simp)
-      · rename_i h1 _ h2
-        exact ⟨inverse_setBoth s hi n a h1 h2, by simp, by simp⟩
+  repeat' split
+  all_goals first
+    | exact good_same s hi _ (by simp)
+    | exact ⟨inverse_setBoth s hi n a (by assumption) (by assumption), by simp, by simp⟩
 
 theorem good_rem (s : State N A) (hi : Inverse s) (n : N) (a : A) : Good s (rem s n a) := by
   unfold rem
   split
   · split
     · exact good_same s hi _ (by simp)
-    · rename_i a' h
-      simp only
-      generalize (if (!truthy a) = true then a' else a) = b
-      split
+    · split
       · exact good_same s hi _ (by simp)
-      · rename_i hne
-        have hb : b = a' := by simpa using hne
-        subst hb
-        rw [delBoth_spec s hi n b h]
-        exact ⟨inverse_dropBoth s hi n b h, by simp, by simp⟩
+      · rename_i a' h
+        simp only
+        generalize (if (!truthy a) = true then a' else a) = b
+        split
+        · exact good_same s hi _ (by simp)
+        · rename_i hne
+          have hb : b = a' := by simpa using hne
+          subst hb
+          rw [delBoth_spec s hi n b h]
+          exact ⟨inverse_dropBoth s hi n b h, by simp, by simp⟩
   · split
     · split
       · exact good_same s hi _ (by simp)
-      · rename_i n' h
-        have h' := (hi n' a).mpr h
-        rw [delBoth_spec s hi n' a h']
-        exact ⟨inverse_dropBoth s hi n' a h', by simp, by simp⟩
+      · split
+        · exact good_same s hi _ (by simp)
+        · rename_i n' h
+          have h' := (hi n' a).mpr h
+          rw [delBoth_spec s hi n' a h']
+          exact ⟨inverse_dropBoth s hi n' a h', by simp, by simp⟩
     · exact good_same s hi _ (by simp)
 
 theorem good_chgAddr (s : State N A) (hi : Inverse s) (n : N) (a : A) : Good s (chgAddr s n a) := by
@@ -232,16 +201,30 @@ theorem good_chgAddr (s : State N A) (hi : Inverse s) (n : N) (a : A) : Good s (
   · simp only [chgAddr, ht, ↓reduceIte]; exact good_same s hi _ (by simp)
   · have hn : truthy n = true := by simp at ht; exact ht.1
     have ha : truthy a = true := by simp at ht; exact ht.2
+    cases hhn : hashable n with
+    | false =>
+      have e : chgAddr s n a = (s, .error .typeError) := by simp [chgAddr, hn, ha, hhn]
+      rw [e]; exact good_same s hi _ (by simp)
+    | true =>
     cases h1 : s.n2a.get n with
-    | none => simp only [chgAddr, ht, h1]; exact good_same s hi _ (by simp)
+    | none =>
+      have e : chgAddr s n a = (s, .ok (.bool false)) := by simp [chgAddr, hn, ha, hhn, h1]
+      rw [e]; exact good_same s hi _ (by simp)
     | some old =>
       by_cases hne : a = old
-      · have e : chgAddr s n a = (s, .ok (.bool false)) := by subst hne; simp [chgAddr, hn, ha, h1]
+      · have e : chgAddr s n a = (s, .ok (.bool false)) := by subst hne; simp [chgAddr, hn, ha, hhn, h1]
         rw [e]; exact good_same s hi _ (by simp)
-      · cases h2 : s.a2n.get a with
-        | some x => simp only [chgAddr, ht, h1, hne, h2, ↓reduceIte]; exact good_same s hi _ (by simp)
+      · cases hha : hashable a with
+        | false =>
+          have e : chgAddr s n a = (s, .error .typeError) := by simp [chgAddr, hn, ha, hhn, hha, h1, hne]
+          rw [e]; exact good_same s hi _ (by simp)
+        | true =>
+        cases h2 : s.a2n.get a with
+        | some x =>
+          have e : chgAddr s n a = (s, .error .namerError) := by simp [chgAddr, hn, ha, hhn, hha, h1, hne, h2]
+          rw [e]; exact good_same s hi _ (by simp)
         | none =>
-          rw [chgAddr_ok s hi n a old h1 h2 hn ha hne]
+          rw [chgAddr_ok s hi n a old h1 h2 hn ha hne hhn hha]
           exact ⟨inverse_chg s hi n a old h1 h2, by simp, by simp⟩
 
 theorem good_chgName (s : State N A) (hi : Inverse s) (a : A) (n : N) : Good s (chgName s a n) := by
@@ -249,16 +232,30 @@ theorem good_chgName (s : State N A) (hi : Inverse s) (a : A) (n : N) : Good s (
   · simp only [chgName, ht, ↓reduceIte]; exact good_same s hi _ (by simp)
   · have hn : truthy n = true := by simp at ht; exact ht.1
     have ha : truthy a = true := by simp at ht; exact ht.2
+    cases hha : hashable a with
+    | false =>
+      have e : chgName s a n = (s, .error .typeError) := by simp [chgName, hn, ha, hha]
+      rw [e]; exact good_same s hi _ (by simp)
+    | true =>
     cases h1 : s.a2n.get a with
-    | none => simp only [chgName, ht, h1]; exact good_same s hi _ (by simp)
+    | none =>
+      have e : chgName s a n = (s, .ok (.bool false)) := by simp [chgName, hn, ha, hha, h1]
+      rw [e]; exact good_same s hi _ (by simp)
     | some old =>
       by_cases hne : n = old
-      · have e : chgName s a n = (s, .ok (.bool false)) := by subst hne; simp [chgName, hn, ha, h1]
+      · have e : chgName s a n = (s, .ok (.bool false)) := by subst hne; simp [chgName, hn, ha, hha, h1]
         rw [e]; exact good_same s hi _ (by simp)
-      · cases h2 : s.n2a.get n with
-        | some x => simp only [chgName, ht, h1, hne, h2, ↓reduceIte]; exact good_same s hi _ (by simp)
+      · cases hhn : hashable n with
+        | false =>
+          have e : chgName s a n = (s, .error .typeError) := by simp [chgName, hn, ha, hhn, hha, h1, hne]
+          rw [e]; exact good_same s hi _ (by simp)
+        | true =>
+        cases h2 : s.n2a.get n with
+        | some x =>
+          have e : chgName s a n = (s, .error .namerError) := by simp [chgName, hn, ha, hhn, hha, h1, hne, h2]
+          rw [e]; exact good_same s hi _ (by simp)
         | none =>
-          rw [chgName_ok s hi n old a h1 h2 hn ha hne]
+          rw [chgName_ok s hi n old a h1 h2 hn ha hne hhn hha]
           exact ⟨inverse_chg' s hi n old a h1 h2, by simp, by simp⟩
 
 theorem good_step (s : State N A) (hi : Inverse s) (op : Op N A) : Good s (step s op) := by
@@ -268,8 +265,8 @@ theorem good_step (s : State N A) (hi : Inverse s) (op : Op N A) : Good s (step 
   | chgAddr n a => exact good_chgAddr s hi n a
   | chgName a n => exact good_chgName s hi a n
   | clear => exact ⟨inverse_empty, by simp [step], by simp [step]⟩
-  | getAddr n => exact good_same s hi _ (by simp)
-  | getName a => exact good_same s hi _ (by simp)
+  | getAddr n => simp only [step]; split <;> exact good_same s hi _ (by simp)
+  | getName a => simp only [step]; split <;> exact good_same s hi _ (by simp)
   | count => exact good_same s hi _ (by simp)
 
 /-- both association lists are well-formed dicts (no key twice) -/
@@ -318,8 +315,8 @@ theorem wf_step (s : State N A) (hw : Wf s) (op : Op N A) : Wf (step s op).1 := 
       | (rename_i m1 h1; have e1 := (Map.del_ok h1).1; subst e1
          exact ⟨Map.uniq_set (Map.uniq_drop hw.1 _) n a, Map.uniq_set hw.2 a n⟩)
   | clear => exact wf_empty
-  | getAddr n => exact hw
-  | getName a => exact hw
+  | getAddr n => simp only [step]; split <;> exact hw
+  | getName a => simp only [step]; split <;> exact hw
   | count => exact hw
 
 end Hio.Namer
